@@ -1,4 +1,183 @@
-From Coq Require Import ZArith List Bool.
+(* C29 - automatic pickling of extension types round-trips.  Statements only; proofs in Proof/P_Pickle.v.
+   Section variables of the model (atom, cv, to_py, from_py, czero, atom_truth, hash, atom_eqb) are
+   universally quantified in every theorem: the value conversions and the hash are uninterpreted. *)
+From Coq Require Import ZArith List Bool Permutation Sorted.
 From CyVerif Require Import Model.M_Pickle Proof.P_Pickle.
-Theorem C29_placeholder : True. Proof. exact P_Pickle.placeholder. Qed.
-Print Assumptions C29_placeholder.
+Import ListNotations.
+
+(* 1. ROUND TRIP, all layouts (any number of members, any inheritance depth), all values: for an
+   eligible class without user __getstate__/__setstate__, whose attribute names are pairwise
+   distinct, what pickle/copy rebuild from __reduce__ has the type, the instance __dict__ and every
+   member (inherited ones included) of the original.  slot_ok = each C member survives
+   to_py/from_py (section hypothesis on the conversion) and is not a pointer. *)
+Theorem C29_roundtrip :
+  forall (atom cv : Type) (to_py : kind -> cv -> atom) (from_py : kind -> atom -> option cv)
+         (czero : cv) (atom_truth : atom -> bool) (hash : nat -> list name -> Z)
+         (atom_eqb : atom -> atom -> bool)
+         avail f e (o : obj atom cv) c bs ms acc,
+  t_hier (o_type atom cv o) = c :: bs ->
+  decide f e (c :: bs) = InjectPickle ms ->
+  existsb c_getstate (c :: bs) = false -> existsb c_setstate (c :: bs) = false ->
+  NoDup (all_names (c :: bs)) ->
+  wf_obj atom cv to_py from_py o ->
+  accepted hash avail f (all_names (c :: bs)) = Some acc -> hd_error avail = Some 0%nat ->
+  exists rv o',
+    reduce atom cv to_py hash f e o = Ok rv /\
+    load atom cv from_py czero atom_truth hash atom_eqb avail f e rv = Ok o' /\
+    same_attrs atom cv (c :: bs) o' o.
+Proof. exact P_Pickle.roundtrip. Qed.
+Print Assumptions C29_roundtrip.
+
+(* 2. the state tuple is the name-sorted member list (plus the non-empty __dict__), the checksum is
+   the hash of exactly these names *)
+Theorem C29_state_order :
+  forall (atom cv : Type) (to_py : kind -> cv -> atom) (from_py : kind -> atom -> option cv)
+         (hash : nat -> list name -> Z) f e (o : obj atom cv) c bs ms rv,
+  t_hier (o_type atom cv o) = c :: bs ->
+  decide f e (c :: bs) = InjectPickle ms ->
+  existsb c_getstate (c :: bs) = false -> existsb c_setstate (c :: bs) = false ->
+  wf_obj atom cv to_py from_py o -> reduce atom cv to_py hash f e o = Ok rv ->
+  let st := map (fun m => item_of atom cv to_py m (slot_of atom cv o m)) (all_members (c :: bs)) in
+  rv_chk atom rv = hash 0%nat (all_names (c :: bs)) /\
+  StronglySorted mle (all_members (c :: bs)) /\
+  ((rv_arg_state atom rv = Some st /\ rv_state atom rv = None) \/
+   (rv_arg_state atom rv = None /\ rv_state atom rv = Some st) \/
+   (exists d, o_dict atom cv o = Some d /\ d <> [] /\
+              rv_arg_state atom rv = None /\ rv_state atom rv = Some (st ++ [PDict d]))).
+Proof. exact P_Pickle.reduce_state_order. Qed.
+Print Assumptions C29_state_order.
+
+(* 3. the member list is a sorted permutation of the declared members of the class and its bases, and
+   depends only on that set: re-ordering declarations, or moving them between a base and a subclass,
+   changes neither the state order nor the checksum (old pickles stay loadable and correctly assigned) *)
+Theorem C29_members_sorted_permutation :
+  forall h, Permutation (all_members h) (gather h) /\ StronglySorted mle (all_members h).
+Proof. intro h. split; [apply P_Pickle.all_members_perm|apply P_Pickle.all_members_sorted]. Qed.
+Print Assumptions C29_members_sorted_permutation.
+
+Theorem C29_layout_invariant :
+  forall h1 h2, Permutation (gather h1) (gather h2) -> NoDup (map m_name (gather h1)) ->
+                all_members h1 = all_members h2.
+Proof. exact P_Pickle.layout_invariant. Qed.
+Print Assumptions C29_layout_invariant.
+
+(* 4. LAYOUT CHANGE.  Full statement wanted by the property: "all_names h1 <> all_names h2 -> loading
+   raises".  It is FALSE for the real hash (28-bit truncation; the correspondence run exhibits two
+   layouts with equal checksums and replays the mis-assignment) and not provable for an
+   uninterpreted one.  Proved: a checksum outside the accepted set raises PickleError whatever the
+   state; hence a changed layout is detected whenever the writer's checksum is not accepted, in
+   particular when the hash separates the two layouts. *)
+Theorem C29_bad_checksum_raises :
+  forall (atom cv : Type) (from_py : kind -> atom -> option cv) (czero : cv) (atom_truth : atom -> bool)
+         (hash : nat -> list name -> Z) (atom_eqb : atom -> atom -> bool) avail f owner t chk st acc,
+  accepted hash avail f (all_names owner) = Some acc -> ~ In chk acc ->
+  unpickle atom cv from_py czero atom_truth hash atom_eqb avail f owner t chk st = Err EPickle.
+Proof. exact P_Pickle.unpickle_bad_checksum. Qed.
+Print Assumptions C29_bad_checksum_raises.
+
+Theorem C29_layout_change_detected_partial :
+  forall (atom cv : Type) (to_py : kind -> cv -> atom) (from_py : kind -> atom -> option cv)
+         (czero : cv) (atom_truth : atom -> bool) (hash : nat -> list name -> Z)
+         (atom_eqb : atom -> atom -> bool) avail f e (o : obj atom cv) h1 h2 t2 rv acc2,
+  reduce_cython atom cv to_py hash h1 o = Ok rv ->
+  accepted hash avail f (all_names h2) = Some acc2 ->
+  (forall a, In a avail -> hash a (all_names h2) <> hash 0%nat (all_names h1)) ->
+  load_into atom cv from_py czero atom_truth hash atom_eqb avail f e h2 t2 rv = Err EPickle.
+Proof. exact P_Pickle.cross_layout_injective. Qed.
+Print Assumptions C29_layout_change_detected_partial.
+
+(* 5. ELIGIBILITY = the documented rule, for every hierarchy, provided no stray module-level name
+   __cinit__/__reduce__ is visible (quiet) - see C29_module_name_refuted for the general case *)
+Theorem C29_eligibility_documented_partial :
+  forall f e c bs, quiet f e ->
+    ((exists ms, decide f e (c :: bs) = InjectPickle ms) <-> documented_rule f c bs).
+Proof. exact P_Pickle.decide_pickle_iff. Qed.
+Print Assumptions C29_eligibility_documented_partial.
+
+Theorem C29_eligible_members :
+  forall f e h ms, decide f e h = InjectPickle ms -> ms = all_members h.
+Proof. exact P_Pickle.decide_pickle_members. Qed.
+Print Assumptions C29_eligible_members.
+
+Theorem C29_refusal_reason :
+  forall f e c bs r ns,
+  decide f e (c :: bs) = InjectRaise r ns ->
+  match r with
+  | RCinit => existsb c_cinit (c :: bs) || negb (fx_lookup f) && g_cinit e = true
+  | RNonPy => existsb c_cinit (c :: bs) = false /\ ns <> [] /\
+              ns = map m_name (filter (fun m => non_py f (m_kind m)) (all_members (c :: bs)))
+  | RStruct => existsb c_cinit (c :: bs) = false /\ c_auto c <> Some true /\ ns <> [] /\
+               (forall m, In m (all_members (c :: bs)) -> non_py f (m_kind m) = false) /\
+               ns = map m_name (filter (fun m => is_struct (m_kind m)) (all_members (c :: bs)))
+  end.
+Proof. exact P_Pickle.decide_refusal. Qed.
+Print Assumptions C29_refusal_reason.
+
+(* 6. FINDINGS: the as-is model (all repair flags off) violates the property *)
+Theorem C29_module_name_refuted :
+  exists h, documented_rule F0 (hd (mk_cls 0 [] None) h) (tl h) /\
+            decide F0 {| g_cinit := true; g_reduce := false |} h = InjectRaise RCinit [].
+Proof. exact P_Pickle.module_name_refuted. Qed.
+Print Assumptions C29_module_name_refuted.
+
+Theorem C29_autopickle_off_refuted :
+  exists rv o', zreduce F0 E0 off_o = Ok rv /\ zload [0;1;2]%nat F0 E0 rv = Ok o' /\
+                get Z Z (o_slots Z Z off_o) nB = Some (SC 9%Z) /\
+                get Z Z (o_slots Z Z o') nB = Some (SC 0%Z).
+Proof. exact P_Pickle.autopickle_off_refuted. Qed.
+Print Assumptions C29_autopickle_off_refuted.
+
+Theorem C29_char_ptr_refuted :
+  (exists ms, decide F0 E0 ptr_h = InjectPickle ms) /\
+  exists rv o', zreduce F0 E0 ptr_o = Ok rv /\ zload [0;1;2]%nat F0 E0 rv = Ok o' /\
+                get Z Z (o_slots Z Z o') nA = Some SDangling.
+Proof. exact P_Pickle.char_ptr_refuted. Qed.
+Print Assumptions C29_char_ptr_refuted.
+
+Theorem C29_checksum_padding_refuted :
+  forall (hash : nat -> list name -> Z) ns, accepted hash [0; 1]%nat F0 ns = None.
+Proof. exact P_Pickle.pad_refuted. Qed.
+Print Assumptions C29_checksum_padding_refuted.
+
+(* repaired variants: the flags make the findings disappear *)
+Theorem C29_fx_lookup_env_irrelevant :
+  forall f e1 e2 h, fx_lookup f = true -> decide f e1 h = decide f e2 h.
+Proof. exact P_Pickle.decide_fx_lookup_env. Qed.
+Print Assumptions C29_fx_lookup_env_irrelevant.
+
+Theorem C29_fx_ptr_no_pointer_member :
+  forall f e h ms m cv st, fx_ptr f = true -> decide f e h = InjectPickle ms ->
+    In m (all_members h) -> m_kind m <> KC cv st true.
+Proof. exact P_Pickle.eligible_fx_ptr_no_ptr. Qed.
+Print Assumptions C29_fx_ptr_no_pointer_member.
+
+Theorem C29_fx_pad_total :
+  forall f cs, fx_pad f = true -> (1 <= length cs <= 3)%nat -> exists acc, pad3 f cs = Some acc.
+Proof. exact P_Pickle.pad3_fx_total. Qed.
+Print Assumptions C29_fx_pad_total.
+
+(* the hypotheses of C29_roundtrip are satisfiable on a two-level hierarchy with a C member, an object
+   member and a non-empty instance dict *)
+Definition nv_h : hierarchy :=
+  [mk_cls 2 [{| m_name := nB; m_kind := KObj |}; {| m_name := dict_name; m_kind := KObj |}] None;
+   mk_cls 1 [{| m_name := nA; m_kind := kint |}] None].
+Definition nv_o : obj Z Z :=
+  {| o_type := {| t_hier := nv_h; t_pydict := false |};
+     o_slots := [(nB, SObj (PAtom 4%Z)); (nA, SC 7%Z)]; o_dict := Some [(1%Z, 2%Z)] |}.
+Example C29_nonvacuous :
+  (exists ms, decide F0 E0 nv_h = InjectPickle ms) /\
+  NoDup (all_names nv_h) /\
+  wf_obj Z Z (fun _ c => c) (fun _ a => Some a) nv_o /\
+  exists rv o', zreduce F0 E0 nv_o = Ok rv /\ zload [0;1;2]%nat F0 E0 rv = Ok o' /\
+    o_dict Z Z o' = Some [(1%Z, 2%Z)] /\ get Z Z (o_slots Z Z o') nA = Some (SC 7%Z) /\
+    get Z Z (o_slots Z Z o') nB = Some (SObj (PAtom 4%Z)).
+Proof.
+  split; [eexists; vm_compute; reflexivity|].
+  split; [vm_compute; repeat constructor; simpl; intuition discriminate|].
+  split.
+  - split.
+    + intros m Hm. vm_compute in Hm. destruct Hm as [<-|[<-|[]]]; eexists; (split; [vm_compute; reflexivity|]); vm_compute; auto.
+    + vm_compute. split; discriminate.
+  - eexists. eexists. split; [vm_compute; reflexivity|]. split; [vm_compute; reflexivity|].
+    repeat split; reflexivity.
+Qed.
